@@ -1,6 +1,7 @@
 import NfcVerif.Model.Des
 import NfcVerif.Model.Auth
-open NfcVerif NfcVerif.Des NfcVerif.Mac NfcVerif.Auth
+import NfcVerif.Model.AuthHist
+open NfcVerif NfcVerif.Des NfcVerif.Mac NfcVerif.Auth NfcVerif.AuthCard NfcVerif.AuthHist
 
 def C3 : Cipher := tdesBytes
 
@@ -8,8 +9,114 @@ def hexes (ws : List String) : Option (List Bytes) := ws.mapM parseHex
 
 def showBool : Py Bool → String := showPy (fun b => if b then "true" else "false")
 
+/-! ## histories: `hist S<0|1> G<0|1: session forgotten when an authentication starts> I<idm> F<rcWritten><extAuth> B<nn>=<16 octets>... <ops>... <rules>...`
+
+ops   `a:<pw>:<rc>` authenticate, `r:<blocks>` read_with_mac, `w:<data>:<block>` write_with_mac,
+      `q:<blocks>` read_without_mac, `p:<data>:<block>` write_without_mac,
+      `t:<pw|None>:<rp>:<pf>:<rc>` protect, `s:<nn>:<16 octets>` block nn of the card is replaced (world event)
+rules `x:<c|r>:<exchange>:<^mask | drop | =frame>`
+reply `<result>;... | <command>;... | <card state>` -/
+
+structure Script where
+  liteS : Bool := false
+  forget : Bool := false
+  idm : Bytes := []
+  rcWritten : Bool := false
+  extAuth : Bool := false
+  blocks : List (Nat × Bytes) := []
+  ops : List (Op (Card × Nat)) := []
+  rules : List Rule := []
+
+def hexNat (s : String) : Option Nat := (parseHex s).map beNat
+
+def parseOp (fields : List String) : Option (Op (Card × Nat)) :=
+  match fields with
+  | ["a", pw, rc] => do some (.auth (← parseHex pw) (← parseHex rc))
+  | ["r", bl] => do some (.readMac (← parseHex bl))
+  | ["w", d, b] => do some (.writeMac (← parseHex d) (← hexNat b))
+  | ["q", bl] => do some (.readPlain (← parseHex bl))
+  | ["p", d, b] => do some (.writePlain (← parseHex d) (← hexNat b))
+  | ["t", pw, rp, pf, rc] => do
+    let pw ← if pw = "None" then some none else (parseHex pw).map some
+    some (.protect pw (rp != "0") (← hexNat pf) (← parseHex rc))
+  | ["s", n, d] => do
+    let n ← hexNat n
+    let d ← parseHex d
+    some (.world fun w => (w.1.set n d, w.2))
+  | _ => none
+
+def parseRule (fields : List String) : Option Rule :=
+  match fields with
+  | ["x", dir, i, act] => do
+    let n ← i.toNat?
+    let a ← if act = "drop" then some Action.drop
+      else if act.startsWith "^" then (parseHex (act.drop 1).toString).map Action.xor
+      else if act.startsWith "=" then (parseHex (act.drop 1).toString).map Action.replace
+      else none
+    some ⟨dir = "r", n, a⟩
+  | _ => none
+
+def parseScript : List String → Script → Option Script
+  | [], sc => some sc
+  | tok :: rest, sc =>
+    if tok = "S0" then parseScript rest { sc with liteS := false }
+    else if tok = "S1" then parseScript rest { sc with liteS := true }
+    else if tok = "G0" then parseScript rest { sc with forget := false }
+    else if tok = "G1" then parseScript rest { sc with forget := true }
+    else if tok.startsWith "I" then
+      match parseHex (tok.drop 1).toString with
+      | some i => parseScript rest { sc with idm := i }
+      | none => none
+    else if tok.startsWith "F" then
+      parseScript rest { sc with rcWritten := (tok.drop 1).toString.startsWith "1", extAuth := (tok.drop 2).toString.startsWith "1" }
+    else if tok.startsWith "B" then
+      match (tok.drop 1).toString.splitOn "=" with
+      | [n, d] =>
+        match hexNat n, parseHex d with
+        | some n, some d => parseScript rest { sc with blocks := sc.blocks ++ [(n, d)] }
+        | _, _ => none
+      | _ => none
+    else
+      let fields := tok.splitOn ":"
+      match parseOp fields, parseRule fields with
+      | some op, _ => parseScript rest { sc with ops := sc.ops ++ [op] }
+      | none, some r => parseScript rest { sc with rules := sc.rules ++ [r] }
+      | none, none => none
+
+def showRes : Py Res → String
+  | .ok (.bool b) => if b then "true" else "false"
+  | .ok (.data none) => "none"
+  | .ok (.data (some d)) => toHex d
+  | .ok .unit => "unit"
+  | .error e => "exc:" ++ e.name
+
+def cardDigest (c : Card) : String :=
+  let nums := List.range 15 ++ [0x80, 0x82, 0x83, 0x84, 0x85, 0x86, 0x87, 0x88] ++ (if c.liteS then [0x90] else [])
+  toHex ([if c.rcWritten then 1 else 0, if c.extAuth then 1 else 0] ++ nums.flatMap c.blk)
+
+def runScript (sc : Script) : String :=
+  let card := Card.ofBlocks sc.liteS sc.idm sc.blocks sc.rcWritten sc.extAuth
+  let r := run C3 sc.forget (cardAir C3 sc.rules) sc.idm sc.liteS sc.ops ⟨Reader.init, (card, 0), []⟩
+  ";".intercalate (r.1.map showRes) ++ " | " ++ ";".intercalate (r.2.tr.map fun e => toHex e.1)
+    ++ " | " ++ cardDigest r.2.w.1 ++ " " ++ (if r.2.rd.authed then "1" else "0") ++ " "
+    ++ (match r.2.rd.sess with | some s => toHex s.sk ++ ":" ++ toHex s.iv | none => "nosess")
+
 def handle (line : String) : String :=
   match line.splitOn " " with
+  | "hist" :: toks =>
+    match parseScript toks {} with
+    | some sc => runScript sc
+    | none => "bad-op"
+  | "card" :: toks =>
+    -- one command to the card: `card <script tokens without ops> c:<frame>`
+    match toks.getLast?, parseScript toks.dropLast {} with
+    | some c, some sc =>
+      match parseHex ((c.drop 2).toString) with
+      | some cmd =>
+        let r := (Card.ofBlocks sc.liteS sc.idm sc.blocks sc.rcWritten sc.extAuth).command C3 cmd
+        (match r.1 with | some f => toHex f | none => "none") ++ " " ++ cardDigest r.2
+      | none => "bad-op"
+    | _, _ => "bad-op"
   | op :: args =>
     match op, args, hexes args with
     | "des.enc", _, some [k, b] => "ok " ++ toHex (desBytes k b)
